@@ -515,7 +515,8 @@ def C01(tier, seed):
            "relative standard error of the estimator the specification state selects (HLL register mode: sqrt(ln 2)/sqrt k for HIP, sqrt(3 ln 2 - 1)/sqrt k "
            "for the composite estimator of an out-of-order sketch, +-4%, lg_k to 13 (14 thorough); CPC: sqrt(ln 2 / 2)/sqrt k for HIP, ln 2/sqrt k for ICON "
            "of a merged sketch, +-4% (+-17% for ICON below lg_k 8); theta: sqrt((1 - theta)/n) for n >= 400, within 12%) - so an interval cannot be "
-           "narrower than the estimator's own standard error, which is the deterministic part of 'coverage never materially below nominal'",
+           "narrower than the estimator's own standard error, which is the deterministic part of 'coverage never materially below nominal'; in HLL register "
+           "mode the three-sigma upper bound is never below the number of non-zero registers of the specification state (NzOK)",
            "NOT DECIDED: absence of bias, the empirical spread over random item sets, and the 68/95/99.7% coverage rates are statements about a "
            "probability distribution of floating-point outputs; a TLA+ specification has neither reals nor probability and no statistical engine is "
            "added beside it. A swapped interpolation-table row or a few-percent bias that keeps the bounds nested is not detected by this check"],
